@@ -37,12 +37,8 @@ def revalidation(F, R):
             continue
         # switch on the validation result
         arms = None
-        for b in range(len(f.blocks)):
-            t = f.blocks[b]['t']
-            if t[0] == 'switch':
-                p = f.prov_operand(t[1])
-                if p.root[0] == 'call' and p.root[1].key() == iv[0].key():
-                    arms = (b,) + lib.bool_switch_arms(f, b)
+        for sw_ in lib.bool_switches_on_call(f, iv[0]):   # `if invalid(..)`, `if !invalid(..)`, `let valid = !invalid(..); if valid`
+            arms = sw_
         if arms is None:
             R.ob('SIBLINGS', key, False, 'the result of is_invalid_content is not branched on', iv[0].where, f)
             continue
